@@ -83,6 +83,18 @@ CHECKS = {
          "lists. The complex (realroots=False) branch of polyroots is not modelled."),
    technique='Coq theorems (list induction, ring/field, Coquelicot limits) + AST translator agreement lemmas + exact-rational correspondence',
    ref='DESIGN.md §3 C19'),
+ 'C16': dict(
+   text=("State-machine model of Path as a MutableSequence (12 mutation ops with the collections.abc mix-ins as CPython defines them, 10 "
+         "queries that fill caches) and of the segment-level length caches, with segment length uninterpreted (coq/Model/PathCache.v). "
+         "Theorems for histories of ANY length (induction over the op list): invariant established by construction, preserved by every "
+         "operation outside an explicit boolean safe_op predicate, and under the invariant every query equals that of a fresh Path; "
+         "eq => hash for the four segment classes. Each excluded situation has a _refuted witness (vm_compute) that replays on the real code: "
+         "they are the known findings. Tie: every history of <=3 events x 14 queries is run on the real Path and compared bitwise with a fresh "
+         "Path (the property itself), and traces incl. private cache state are compared inside Coq with the model's prediction."),
+   note=("Trusted: kernel+vm_compute, harness. Segment length is abstract (C06); d()/bbox rendering uninterpreted in Coq (compared bitwise in "
+         "Python). Aliased segment objects are outside the model. Both _quad_available configurations."),
+   technique='Coq invariant proofs over operation histories + exhaustive bounded history enumeration + model/trace correspondence in Coq',
+   ref='DESIGN.md §3 C16'),
 }
 def main():
     checks = []
